@@ -258,13 +258,18 @@ CLAIMED = {
              "C18_consumption_line, C18_production_line, C18_auxiliary_line (service re-assigned by normalize), "
              "C18_output_line, C18_demand_line, C18_factor_line — same id, tags and comment, every value at the written "
              "precision (with C17_figures_at_precision: within half a unit of the last decimal). C18_empty_values_refuted: a "
-             "component without values does not read back (hypothesis v <> []). The tie to the code: Display of the "
+             "component without values does not read back (hypothesis v <> []). C18_factors_file: a whole factors file reads "
+             "back as the same set. C18_saved_factors_evaluate_the_same: the prepared set simplified for a building (what "
+             "--of writes) is accepted again by the preparation, with any defaults, and evaluates the building to the same "
+             "carrier balances or the same error (every factor the evaluation looks up is unchanged; fix 1505fba was found "
+             "on the way). The tie to the code: Display of the "
              "implementation compared character by character with show_components / show_factors on generated files; the "
              "written factor text parsed by model and implementation; on the implementation: written text read back and "
              "compared (metadata, tags, ids, comments, demands, values at 2 / 3 decimals), the saved files re-evaluated and "
              "compared with the original evaluation within the written precision, the same through cteepbd --oc / --of. "
-             "PARTIAL: the file-level round trip (line splitting, metadata lines, re-normalisation of the text read back) is "
-             "decided on the implementation only. One known finding (rounding can create one more automatic completion).",
+             "PARTIAL: the file-level round trip of components (line splitting, metadata lines, re-normalisation of the text "
+             "read back) is decided on the implementation only. Known findings: rounding can create one more automatic "
+             "completion; values near the printed precision.",
         design_ref="DESIGN.md §6 C18",
         note="Trusted: Coq kernel + vm_compute; the model's readers are tied to the code by the exact correspondence of C16.",
         technique="Coq model of Display/FromStr + per-record round-trip theorems + char-exact Display correspondence + read-back and re-evaluation oracle"),
